@@ -241,7 +241,10 @@ func (fx *fnExec) execCallWith(st *state, in ssa.Instruction, cc *ssa.CallCommon
 		fx.safetyObl("nil", in, in.Pos(), "invoke "+info.short, "(not (= "+args[0].term+" iface_nil))")
 	}
 	if ct == nil {
-		fx.fail("call to %s: no contract (key %s)", callShortName(cc), info.key)
+		if info.fn != nil && fx.canInline(info.fn) {
+			return fx.inlineCall(st, in, info.fn, args, nil)
+		}
+		fx.fail("call to %s: no contract and not inlinable (key %s)", callShortName(cc), info.key)
 	}
 	if rtype == nil && info.sig != nil {
 		rtype = info.sig.Results()
@@ -521,6 +524,8 @@ func (fx *fnExec) addrLocs(a *addr) []loc {
 	case aElem:
 		arr, srt := fx.elemsArr(a.base)
 		return []loc{{arr: arr, sort: srt, idx: a.arr}}
+	case aGlobal:
+		return nil // package-level variables are not modelled as mutable state
 	case aStructObj:
 		var out []loc
 		s := structOf(a.base)
@@ -585,22 +590,40 @@ func (fx *fnExec) execGo(st *state, x *ssa.Go) {
 	if fv.closure != nil {
 		args = append(append([]val{}, args...), fv.bindings...)
 	}
+	anchor := fx.anchorName(x)
 	if ct == nil {
-		fx.fail("go %s: no contract (key %s)", callShortName(cc), info.key)
+		if info.fn == nil || !fx.canInline(info.fn) {
+			fx.fail("go %s: no contract and not inlinable (key %s)", callShortName(cc), info.key)
+		}
+		fx.spawns[anchor] = &spawnInfo{fn: info.fn, info: info, args: args, in: x}
+		return
 	}
 	fx.calleesUsed[info.key] = true
 	names := fx.bindNames(info, args)
 	c := &specCtx{fx: fx, cur: st, old: st, names: names, pkg: info.pkg}
-	anchor := fx.anchorName(x)
-	fx.spawns[anchor] = &spawnInfo{ct: ct, info: info, args: args, in: x}
-	for _, r := range ct.Requires {
-		v := c.eval(r.Expr)
-		props := r.Props
-		if len(props) == 0 {
-			props = unionStr(ct.Props, ct.SafetyProps)
+	fx.spawns[anchor] = &spawnInfo{fn: info.fn, ct: ct, info: info, args: args, in: x}
+	func() {
+		defer func() {
+			if r := recover(); r != nil {
+				if e, ok := r.(engineErr); ok && info.fn != nil && fx.canInline(info.fn) {
+					// the spawned function's contract does not resolve against the current source:
+					// fall back on executing its body at the join
+					fx.warnings = append(fx.warnings, fmt.Sprintf("contract of %s does not resolve (%s); body executed in place instead", info.key, string(e)))
+					fx.spawns[anchor].ct = nil
+					return
+				}
+				panic(r)
+			}
+		}()
+		for _, r := range ct.Requires {
+			v := c.eval(r.Expr)
+			props := r.Props
+			if len(props) == 0 {
+				props = unionStr(ct.Props, ct.SafetyProps)
+			}
+			fx.addObl("requires", anchor+":"+r.Label, props, v.term, x.Pos(), r.Src)
 		}
-		fx.addObl("requires", anchor+":"+r.Label, props, v.term, x.Pos(), r.Src)
-	}
+	}()
 }
 
 func (fx *fnExec) execBuiltin(st *state, in ssa.Instruction, b *ssa.Builtin, cc *ssa.CallCommon, rtype types.Type) val {
@@ -853,10 +876,44 @@ func (fx *fnExec) applyJoins(st *state, in ssa.Instruction, recv val) {
 		if sp == nil {
 			fx.fail("join at %s: no spawn %s seen on this path", name, j.Target)
 		}
-		// the callee's requires were checked at the go statement; apply effects only
-		ct := *sp.ct
-		ct.Requires = nil
-		fx.applyContract(st, in, &ct, sp.info, sp.args, nil, "join")
+		if sp.ct != nil {
+			ok := func() (ok bool) {
+				defer func() {
+					if r := recover(); r != nil {
+						if e, isE := r.(engineErr); isE && sp.fn != nil && fx.canInline(sp.fn) {
+							fx.warnings = append(fx.warnings, fmt.Sprintf("contract of %s does not resolve (%s); body executed in place instead", sp.info.key, string(e)))
+							ok = false
+							return
+						}
+						panic(r)
+					}
+				}()
+				// the callee's requires were checked at the go statement; apply effects only
+				ct := *sp.ct
+				ct.Requires = nil
+				snap := st.clone()
+				defer func() {
+					if !ok {
+						*st = *snap
+					}
+				}()
+				fx.applyContract(st, in, &ct, sp.info, sp.args, nil, "join")
+				return true
+			}()
+			if !ok {
+				sp.ct = nil
+			}
+		}
+		if sp.ct == nil {
+			// no usable contract: execute the spawned function here; the value it sends is the value received
+			var sent val
+			fx.inlineCall(st, in, sp.fn, sp.args, &sent)
+			if sent.term != "" && recv.term != "" {
+				fx.assume("(= " + recv.term + " " + sent.term + ")")
+				fx.assumptionsUsed["a buffered channel with a single sender delivers the value that was sent (join clauses)"] = true
+			}
+			continue
+		}
 		if j.Expr != nil {
 			c := &specCtx{fx: fx, cur: st, old: fx.entry, names: fx.params, pkg: fx.pkg}
 			c = c.with(map[string]sval{"recv": fx.toSval(recv)})
